@@ -180,20 +180,99 @@ theorem lookup_merge_fold (k : Kw) (pg m : List (Kw × Val)) :
         · simp [lookup, hk]
         · simp [lookup, hk]
 
-theorem lookup_merge (k : Kw) (s pg : PSet) :
-    lookup k (s.merge pg).pmap = match lookup k s.pmap with
+theorem lookup_mergeRaw (k : Kw) (s pg : PSet) :
+    lookup k (s.mergeRaw pg).pmap = match lookup k s.pmap with
       | some v => some v
       | none => lookup k pg.pmap := by
-  simp only [PSet.merge]
+  simp only [PSet.mergeRaw]
   exact lookup_merge_fold k pg.pmap s.pmap
-
-theorem merge_dups (s pg : PSet) : (s.merge pg).dups = s.dups := rfl
 
 /-- value of keyword `k` in the merged set of a request: the last explicit value, else the default -/
 theorem lookup_merged (r : Request) (k : Kw) :
     lookup k (merged r).pmap = match lastVal k r.kws with
       | some v => some v
       | none => lookup k defaults.pmap := by
-  rw [merged, lookup_merge, lookup_ofList]
+  rw [merged, lookup_mergeRaw, lookup_ofList]
+
+/-! ### merge with its type check -/
+
+/-- if the loop completes, its result is the plain insertion of the absent names -/
+theorem mergeInto_ok (pg m m' : List (Kw × Val)) (h : mergeInto m pg = .ok m') :
+    m' = pg.foldl (fun m kv => if (lookup kv.1 m).isSome then m else m ++ [kv]) m := by
+  induction pg generalizing m with
+  | nil => simp [mergeInto] at h; simp [h]
+  | cons kv t ih =>
+    simp only [mergeInto] at h
+    rw [List.foldl_cons]
+    cases hl : lookup kv.1 m with
+    | none => simp only [hl] at h; simpa [hl] using ih _ h
+    | some v =>
+      simp only [hl] at h
+      by_cases hty : v.ty = kv.2.ty
+      · simp only [hty, if_true] at h; simpa [hl] using ih _ h
+      · simp [hty] at h
+
+/-- the only exception `merge` raises is `wrong_parameter_type_error` -/
+theorem mergeInto_error (pg m : List (Kw × Val)) (e : Err) (h : mergeInto m pg = .error e) :
+    e = errS .wrong_parameter_type_error := by
+  induction pg generalizing m with
+  | nil => simp [mergeInto] at h
+  | cons kv t ih =>
+    simp only [mergeInto] at h
+    cases hl : lookup kv.1 m with
+    | none => simp only [hl] at h; exact ih _ h
+    | some v =>
+      simp only [hl] at h
+      by_cases hty : v.ty = kv.2.ty
+      · simp only [hty, if_true] at h; exact ih _ h
+      · simp only [hty, if_false] at h; cases h; rfl
+
+/-- `merge` completes when every name present in both sets holds values of the same type -/
+theorem mergeInto_succeeds (pg m : List (Kw × Val)) (hn : (pg.map Prod.fst).Nodup)
+    (h : ∀ kv ∈ pg, ∀ v, lookup kv.1 m = some v → v.ty = kv.2.ty) : ∃ m', mergeInto m pg = .ok m' := by
+  induction pg generalizing m with
+  | nil => exact ⟨m, rfl⟩
+  | cons kv t ih =>
+    simp only [List.map_cons, List.nodup_cons] at hn
+    simp only [mergeInto]
+    cases hl : lookup kv.1 m with
+    | none =>
+      simp only []
+      apply ih _ hn.2
+      intro kv' hkv' v hv
+      have hne : kv.1 ≠ kv'.1 := fun hk => hn.1 (hk ▸ List.mem_map_of_mem hkv')
+      rw [lookup_append_single] at hv
+      cases hm : lookup kv'.1 m with
+      | some w => rw [hm] at hv; cases hv; exact h kv' (List.mem_cons_of_mem _ hkv') _ hm
+      | none => rw [hm] at hv; simp [hne] at hv
+    | some v =>
+      have hty := h kv List.mem_cons_self v hl
+      simp only [hty, if_true]
+      exact ih _ hn.2 (fun kv' hkv' => h kv' (List.mem_cons_of_mem _ hkv'))
+
+/-- `merge` throws when some name present in both sets holds values of different types -/
+theorem mergeInto_fails (pg m : List (Kw × Val)) (hn : (pg.map Prod.fst).Nodup)
+    (h : ∃ kv ∈ pg, ∃ v, lookup kv.1 m = some v ∧ v.ty ≠ kv.2.ty) :
+    mergeInto m pg = .error (errS .wrong_parameter_type_error) := by
+  induction pg generalizing m with
+  | nil => obtain ⟨kv, hkv, _⟩ := h; cases hkv
+  | cons kv t ih =>
+    simp only [List.map_cons, List.nodup_cons] at hn
+    obtain ⟨kv', hkv', v, hv, hty⟩ := h
+    simp only [mergeInto]
+    rcases List.mem_cons.mp hkv' with rfl | hmem
+    · simp [hv, hty]
+    · have hne : kv.1 ≠ kv'.1 := fun hk => hn.1 (hk ▸ List.mem_map_of_mem hmem)
+      cases hl : lookup kv.1 m with
+      | none =>
+        simp only []
+        apply ih _ hn.2
+        refine ⟨kv', hmem, v, ?_, hty⟩
+        rw [lookup_append_single, hv]
+      | some w =>
+        by_cases hw : w.ty = kv.2.ty
+        · simp only [hw, if_true]
+          exact ih _ hn.2 ⟨kv', hmem, v, hv, hty⟩
+        · simp [hw]
 
 end TapkeeVerif.Params
